@@ -795,10 +795,7 @@ def symmetric_matrix_to_trace1PSD(matA):
         ret = torch.ones_like(matA) if is_torch else np.ones_like(matA)
     else:
         tmp3 = matA.detach().cpu().numpy() if is_torch else matA
-        if N1<=5: #5 is chosen intuitively
-            EVL = np.linalg.eigvalsh(tmp3)[:,-1]
-        else:
-            EVL = [scipy.sparse.linalg.eigsh(tmp3[x], k=1, which='LA', return_eigenvectors=False)[0] for x in range(N0)]
+        EVL = np.linalg.eigvalsh(tmp3)[:,-1] #matA is dense, ARPACK (eigsh) fails on the zero matrix and is not deterministic
         if is_torch:
             matI = torch.eye(matA.shape[1], dtype=matA.dtype, device=matA.device)
             ret = torch.stack([_hf_trace1_torch(torch.linalg.matrix_exp(matA[x]-EVL[x]*matI)) for x in range(N0)])
